@@ -166,3 +166,17 @@ def is_prefix_of_alternative(ref: Conf, r: str, cands) -> bool:
         if all(rs[i] == c[i] or (i < len(keys) and keys[i] in nkeys) for i in range(len(rs))):
             return True
     return False
+
+
+def denoted_typed(ref: Conf, s: str, impl_typed):
+    """The typed searches an expression stands for, as [(type, string)]: the reference unfolding wherever it is unambiguous
+    (required == allowed, no open choice), in the implementation's order; otherwise what the implementation unfolded to
+    (C07 judges that against the allowed set)."""
+    try:
+        req, alw = denote(ref, s)
+    except SpilExc:
+        return list(impl_typed)
+    if req != alw or GROUPS or {t + ":" + st for t, st in impl_typed} == req:
+        return list(impl_typed)
+    order = {t + ":" + st: i for i, (t, st) in enumerate(impl_typed)}
+    return [tuple(u.split(":", 1)) for u in sorted(req, key=lambda u: (order.get(u, len(order)), u))]
